@@ -134,7 +134,7 @@ def contexts(tier):
 
 
 def main():
-    report = checklib.Report(PID)
+    report = checklib.Report(PID, level="other")
     findings = checklib.Findings(PID)
     report.assumptions += [
         "weak claim: the solver enumerates AST shapes (accepted path classes of the real parser); repr/eval, pickle and deepcopy run concretely on one witness per shape",
